@@ -87,6 +87,8 @@ pub struct Model {
     /// signer set (fixture indices) in force for signing at an epoch
     pub signing_set: BTreeMap<u64, BTreeSet<usize>>,
     pub genesis_epochs: Vec<u64>,
+    /// epochs without an entry: everybody (used by workloads in which every signer always registers)
+    pub default_all: bool,
 }
 
 pub struct Run {
@@ -135,7 +137,7 @@ impl Run {
         Ok(Run {
             sim,
             fixture,
-            model: Model { signing_set, genesis_epochs: vec![start_epoch] },
+            model: Model { signing_set, genesis_epochs: vec![start_epoch], default_all: false },
             log: vec![],
             deliveries: vec![],
             prev,
@@ -147,6 +149,30 @@ impl Run {
         })
     }
 
+    /// restart on existing files after a crash: the doubles of the outside world are re-created at
+    /// the persisted time point, the fixture is deterministic
+    pub async fn resume(cfg: SimConfig, tp: TimePoint, n_signers: usize, pp: ProtocolParameters, genesis_epochs: Vec<u64>) -> StdResult<Run> {
+        let chain_epoch = *tp.epoch;
+        let mut sim = Sim::build(cfg, tp).await?;
+        let fixture = MithrilFixtureBuilder::default().with_signers(n_signers).with_protocol_parameters(pp).build();
+        sim.world.chain_observer.set_signers(fixture.signers_with_stake()).await;
+        sim.update_digester().await?;
+        let prev = sim::snapshot(&sim.db_path())?;
+        Ok(Run {
+            sim,
+            fixture,
+            model: Model { signing_set: BTreeMap::new(), genesis_epochs, default_all: true },
+            log: vec![],
+            deliveries: vec![],
+            prev,
+            step: 0,
+            states_seen: BTreeSet::new(),
+            transitions_seen: BTreeSet::new(),
+            state_event_pairs: BTreeSet::new(),
+            chain_epoch,
+        })
+    }
+
     pub fn n_signers(&self) -> usize {
         self.fixture.signers_fixture().len()
     }
@@ -154,7 +180,11 @@ impl Run {
     /// signers (with stake) the model says are in force at `epoch`
     pub fn signers_at(&self, epoch: u64) -> Vec<SignerWithStake> {
         let all = self.fixture.signers_with_stake();
-        self.model.signing_set.get(&epoch).map(|s| s.iter().map(|&i| all[i].clone()).collect()).unwrap_or_default()
+        match self.model.signing_set.get(&epoch) {
+            Some(s) => s.iter().map(|&i| all[i].clone()).collect(),
+            None if self.model.default_all => all,
+            None => vec![],
+        }
     }
 
     /// choose the next event
@@ -406,7 +436,7 @@ impl Run {
         for &i in who {
             let f = &fixtures[i];
             let party = f.signer_with_stake.party_id.clone();
-            let in_set = self.model.signing_set.get(&epoch).map(|s| s.contains(&i)).unwrap_or(false);
+            let in_set = self.model.signing_set.get(&epoch).map(|s| s.contains(&i)).unwrap_or(self.model.default_all);
             // a signer outside the epoch's set signs with the whole-fixture registration it knows
             let sig: Option<SingleSignature> = if in_set {
                 match builder.restore_signer_from_initializer(party.clone(), f.protocol_initializer.clone()) {
